@@ -2,7 +2,7 @@ import GmqttVerif.Model.Codec.Packets
 /-
   `packets.TotalBytes` (packets.go), `Message.TotalBytes`, `MessageFromPublish`, `MessageToPublish` (message.go).
 
-  FIXED CODE is modelled for finding N5: `MessageToPublish` copied a non-nil but empty `CorrelationData`
+  Finding N5 (fixed in /repo by 06a58b6, mirrored here): `MessageToPublish` copied a non-nil but empty `CorrelationData`
   (`[]byte("")` from the admin API / federation, or an empty will correlation data) into the properties, so the
   packed PUBLISH carried `09 00 00` that `TotalBytes` does not count. `Orig.messageToPublish` keeps the code as found.
 -/
